@@ -123,16 +123,33 @@ def run(ctx):
         p = os.path.join(ind, "x%d.exp" % k)
         open(p, "wb").write(bytes(b))
         inputs.append(("mutate:%d" % k, p, None))
+    only = {}        # inputs that are not run through all four tools: tag -> tools
     if not ctx.quick:
+        from vf import tokmut
         for f in sorted(glob.glob(os.path.join(REPO, "data", "*", "*.exp"))):
             inputs.append(("shipped:" + os.path.relpath(f, os.path.join(REPO, "data")), f, None))
+            # single-token mutants of the shipped schemas at every (n/10)-th token (spec/TokMut.tla with Stride): the
+            # smaller schemas through the checker and the C++ generator, the larger ones through the checker
+            text = open(f, errors="replace").read()
+            ntok = len(tokmut.tokenize(text))
+            if ntok > 100000:
+                continue
+            base = os.path.basename(f)[:-4]
+            for k, m in enumerate(tokmut.mutants(text, ctx.work, with_ins=False, stride=max(1, ntok // 10))):
+                if m["op"] == "none":
+                    continue
+                p = os.path.join(ind, "sk_%s_%d.exp" % (base[:24], k))
+                open(p, "w", encoding="latin-1").write(m["text"])
+                tag = "shiptoken:tok_%s:%s:%d" % (m["op"], base[:24], m["i"])
+                inputs.append((tag, p, None))
+                only[tag] = ["check-express", "exp2cxx"] if ntok <= 40000 else ["check-express"]
     env = dict(os.environ, **build.ASAN_ENV)
-    jobs = [(tag, p, t) for tag, p, o in inputs for t in TOOLS]
+    jobs = [(tag, p, t) for tag, p, o in inputs for t in only.get(tag, TOOLS)]
 
     def one(j):
         tag, p, tool = j
         dd = mkdir(os.path.join(wd, "run", "%s_%s" % (os.path.basename(p), tool)))
-        limit = 300 if tag.startswith("shipped") else 60
+        limit = 300 if tag.startswith("ship") else 60
         t0 = time.time()
         try:
             q = subprocess.run([os.path.join(bdir, "bin", tool), p], cwd=dd, env=env, stdout=subprocess.DEVNULL, stderr=subprocess.PIPE, timeout=limit)
@@ -167,7 +184,7 @@ def run(ctx):
         ev = rep["ev"]
         tag, tool, frame, err = meta[rep["line"] - 1]
         what = "sanitizer" if ev["sanitizer"] else "signal" if ev["signalled"] else "timeout" if ev["timedout"] else "status"
-        origin = tag.split(":")[0] + (":" + tag.split(":")[1] if tag.startswith(("boundary", "mutant", "token")) else "")
+        origin = tag.split(":")[0] + (":" + tag.split(":")[1] if tag.startswith(("boundary", "mutant", "token", "shiptoken")) else "")
         try:
             content = open(paths[tag], "rb").read()[:4000].decode("latin-1")
         except OSError:
@@ -177,7 +194,7 @@ def run(ctx):
                       {"input_tag": tag, "tool": tool, "input_head": content, "stderr_tail": err})
     shutil.rmtree(wd, ignore_errors=True)
     cov = {"states": d.distinct, "evaluations": len(jobs), "distinct_nontrivial": len(inputs), "unsafe_runs": len(got),
-           "inputs_by_origin": {k: sum(1 for t, _, _ in inputs if t.startswith(k)) for k in ("boundary", "valid", "mutant", "token", "truncate", "mutate", "shipped")},
+           "inputs_by_origin": {k: sum(1 for t, _, _ in inputs if t.startswith(k)) for k in ("boundary", "valid", "mutant", "token", "truncate", "mutate", "shipped", "shiptoken")},
            "samples": [json.loads(lines[0]), {"boundary_input": boundary_input("scope_depth", 3)}],
            "rule": "boundary family of every modelled table + valid family + single-fault mutants + truncations and byte "
                    "mutations of a valid schema (+ shipped schemas in the thorough tier), each through 4 sanitizer-built tools; "
